@@ -222,13 +222,16 @@ func (v *Verifier) evalSpec(env *Env, e SExpr) Val {
 		}
 		var binders []string
 		var ranges []Term
+		nbound := 0
+		defer func() { c.qdepth -= nbound }()
 		for _, b := range x.Vars {
 			t := v.resolveType(env.pkg, b.Type)
 			srt := scalarSort(t)
 			if kindOf(t) == KSlice {
 				// a slice-typed bound variable is three integers (backing array, offset, length); cap == len
-				c.fresh++
-				base := fmt.Sprintf("%s!q%d", b.Name, c.fresh)
+				base := fmt.Sprintf("%s!q%d", b.Name, c.qdepth)
+				c.qdepth++
+				nbound++
 				sv := Val{K: KSlice, T: t, A: sym(base + ".ref"), Off: sym(base + ".off"), Len: sym(base + ".len"), Cap: sym(base + ".len")}
 				binders = append(binders, "("+sv.A+" Int)", "("+sv.Off+" Int)", "("+sv.Len+" Int)")
 				ranges = append(ranges, and(le("0", sv.A), le("0", sv.Off), le("0", sv.Len)))
@@ -238,8 +241,11 @@ func (v *Verifier) evalSpec(env *Env, e SExpr) Val {
 			if k := kindOf(t); k != KInt && k != KBool && k != KRef && k != KStr {
 				encFail("spec: quantified variable %s of unsupported type %s", b.Name, b.Type)
 			}
-			c.fresh++
-			nm := fmt.Sprintf("%s!q%d", b.Name, c.fresh)
+			// bound variables are named by nesting depth: the same spec expression evaluated twice in the same
+			// state yields the same term (z3 compares quantifiers including their variable names)
+			nm := fmt.Sprintf("%s!q%d", b.Name, c.qdepth)
+			c.qdepth++
+			nbound++
 			binders = append(binders, "("+sym(nm)+" "+srt+")")
 			ne.vars[b.Name] = Val{K: kindOf(t), T: t, A: sym(nm)}
 			if kindOf(t) == KInt {
